@@ -1362,12 +1362,12 @@ func heStack() string {
 // scheduler source: cancellations, enabling the cut
 
 // anyCanceled: some request of the plan makes the client give up a stream by
-// itself (cancellation, a request body that fails, a response body closed early,
-// an injected handler fault): such a stream keeps its slot until the PING sent
+// itself (cancellation, a request body that fails or disagrees with its declared
+// length, a response body closed early, an injected handler fault): such a stream keeps its slot until the PING sent
 // with its RST_STREAM is answered.
 func (r *heRun) anyCanceled() bool {
 	for _, q := range r.p.reqs {
-		if q.cancel || q.bodyErrAt >= 0 || q.closeEarlyAt >= 0 || q.hfault != "" {
+		if q.cancel || q.bodyErrAt >= 0 || q.closeEarlyAt >= 0 || q.hfault != "" || (q.hasBody && q.declLen != 0 && q.declLen != int64(q.body)) {
 			return true
 		}
 	}
